@@ -33,9 +33,13 @@ def main():
     jobs = int(sys.argv[sys.argv.index("--jobs") + 1]) if "--jobs" in sys.argv else 8
     dst = os.path.join(ROOT, "benign", "%s-%s" % (area, x))
     os.makedirs(dst, exist_ok=True)
-    shutil.copy(os.path.join(wt, "patch%s.diff" % x), os.path.join(dst, "patch.diff"))
+    if os.path.abspath(wt) != os.path.abspath(dst):
+        shutil.copy(os.path.join(wt, "patch%s.diff" % x), os.path.join(dst, "patch.diff"))
     scratch = tempfile.mkdtemp(prefix="vfbenign-")
     out = tempfile.mkdtemp(prefix="vfbenignout-")
+    prev = {}
+    if os.path.exists(os.path.join(dst, "meta.json")):
+        prev = json.load(open(os.path.join(dst, "meta.json")))
     meta = {"id": "%s-%s" % (area, x), "area": area,
             "origin": "independent sub-agent asked for a behaviour-preserving refactor of this area (saw nothing of /verif)"}
     try:
@@ -43,6 +47,8 @@ def main():
         subprocess.check_call(["tar", "-x", "-C", scratch], stdin=p1.stdout)
         p1.wait()
         subprocess.check_call(["git", "apply", "--whitespace=nowarn", os.path.join(dst, "patch.diff")], cwd=scratch)
+        if "--no-tests" in sys.argv and "repository_suite_on_patched_tree" in prev:
+            meta["repository_suite_on_patched_tree"] = prev["repository_suite_on_patched_tree"]
         if "--no-tests" not in sys.argv:
             p = subprocess.run(["/venv/bin/python", "-m", "pytest", "-q", "-p", "no:cacheprovider", "--no-cov",
                                 "--deselect", "tests/examples/test_readme.py", "tests"], cwd=scratch, capture_output=True, text=True,
